@@ -479,7 +479,20 @@ func solve(q *Query, workdir string, timeoutS int, allSolvers bool) {
 	}
 	start := time.Now()
 	defer func() { q.Millis = time.Since(start).Milliseconds() }()
-	for i, sp := range solvers {
+	order := solvers
+	if h := solverHints[stripTarget(q.Obligation)]; h != "" {
+		// the solver that discharged this obligation on the inventory run goes first
+		var first, rest []solverSpec
+		for _, sp := range solvers {
+			if sp.name == h {
+				first = append(first, sp)
+			} else {
+				rest = append(rest, sp)
+			}
+		}
+		order = append(first, rest...)
+	}
+	for i, sp := range order {
 		if sp.name == "cvc5" && strings.Contains(q.SMT, "(lambda") {
 			continue
 		}
@@ -510,6 +523,9 @@ func solve(q *Query, workdir string, timeoutS int, allSolvers bool) {
 }
 
 var keepSMT = false
+
+// solverHints: obligation (variant-stripped) -> solver that discharged its slowest query last time.
+var solverHints = map[string]string{}
 
 func sortedKeys[V any](m map[string]V) []string {
 	var ks []string
